@@ -1,5 +1,5 @@
 use crate::interface::config::GenerateConfig;
-use crate::models::{CommandInfo, StructInfo};
+use crate::models::{CommandInfo, EventInfo, StructInfo, ValidatorAttributes};
 use serde::{Deserialize, Serialize};
 use std::collections::HashMap;
 use std::fs;
@@ -30,6 +30,9 @@ pub struct GenerationCache {
     structs_hash: String,
     /// Hash of configuration settings that affect output
     config_hash: String,
+    /// Hash of all discovered events
+    #[serde(default)]
+    events_hash: String,
     /// Combined hash for quick comparison
     combined_hash: String,
 }
@@ -37,22 +40,38 @@ pub struct GenerationCache {
 impl GenerationCache {
     const CURRENT_VERSION: u32 = 1;
 
-    /// Create a new cache from current generation state
+    /// Create a new cache from current generation state (project without events)
     pub fn new(
         commands: &[CommandInfo],
         structs: &HashMap<String, StructInfo>,
         config: &GenerateConfig,
     ) -> Result<Self, CacheError> {
+        Self::new_with_events(commands, structs, &[], config)
+    }
+
+    /// Create a new cache from current generation state, including the discovered events
+    pub fn new_with_events(
+        commands: &[CommandInfo],
+        structs: &HashMap<String, StructInfo>,
+        events: &[EventInfo],
+        config: &GenerateConfig,
+    ) -> Result<Self, CacheError> {
         let commands_hash = Self::hash_commands(commands)?;
         let structs_hash = Self::hash_structs(structs)?;
         let config_hash = Self::hash_config(config)?;
-        let combined_hash = Self::combine_hashes(&commands_hash, &structs_hash, &config_hash)?;
+        let events_hash = Self::hash_events(events)?;
+        let combined_hash = Self::combine_hashes(
+            &commands_hash,
+            &structs_hash,
+            &format!("{}{}", config_hash, events_hash),
+        )?;
 
         Ok(Self {
             version: Self::CURRENT_VERSION,
             commands_hash,
             structs_hash,
             config_hash,
+            events_hash,
             combined_hash,
         })
     }
@@ -113,11 +132,22 @@ impl GenerationCache {
             .all(|name| output_dir.as_ref().join(name).is_file())
     }
 
-    /// Check if generation is needed by comparing with previous cache
+    /// Check if generation is needed by comparing with previous cache (project without events)
     pub fn needs_regeneration<P: AsRef<Path>>(
         output_dir: P,
         commands: &[CommandInfo],
         structs: &HashMap<String, StructInfo>,
+        config: &GenerateConfig,
+    ) -> Result<bool, CacheError> {
+        Self::needs_regeneration_with_events(output_dir, commands, structs, &[], config)
+    }
+
+    /// Check if generation is needed by comparing with previous cache
+    pub fn needs_regeneration_with_events<P: AsRef<Path>>(
+        output_dir: P,
+        commands: &[CommandInfo],
+        structs: &HashMap<String, StructInfo>,
+        events: &[EventInfo],
         config: &GenerateConfig,
     ) -> Result<bool, CacheError> {
         // Try to load previous cache
@@ -135,7 +165,7 @@ impl GenerationCache {
         }
 
         // Generate current cache
-        let current_cache = Self::new(commands, structs, config)?;
+        let current_cache = Self::new_with_events(commands, structs, events, config)?;
 
         // Compare combined hashes
         Ok(previous_cache.combined_hash != current_cache.combined_hash)
@@ -157,6 +187,7 @@ impl GenerationCache {
             return_type: &'a str,
             is_async: bool,
             channels: Vec<ChannelHashData<'a>>,
+            serde_rename_all: Option<&'static str>,
         }
 
         #[derive(Serialize)]
@@ -164,6 +195,7 @@ impl GenerationCache {
             name: &'a str,
             rust_type: &'a str,
             is_optional: bool,
+            serde_rename: Option<&'a str>,
         }
 
         #[derive(Serialize)]
@@ -184,10 +216,12 @@ impl GenerationCache {
                         name: &p.name,
                         rust_type: &p.rust_type,
                         is_optional: p.is_optional,
+                        serde_rename: p.serde_rename.as_deref(),
                     })
                     .collect(),
                 return_type: &cmd.return_type,
                 is_async: cmd.is_async,
+                serde_rename_all: cmd.serde_rename_all.map(|r| r.to_rename_all_str()),
                 channels: cmd
                     .channels
                     .iter()
@@ -211,6 +245,7 @@ impl GenerationCache {
             file_path: &'a str,
             is_enum: bool,
             fields: Vec<FieldHashData<'a>>,
+            serde_rename_all: Option<&'static str>,
         }
 
         #[derive(Serialize)]
@@ -219,6 +254,8 @@ impl GenerationCache {
             rust_type: &'a str,
             is_optional: bool,
             is_public: bool,
+            serde_rename: Option<&'a str>,
+            validator_attributes: &'a Option<ValidatorAttributes>,
         }
 
         // Sort by name for deterministic ordering
@@ -239,8 +276,11 @@ impl GenerationCache {
                         rust_type: &f.rust_type,
                         is_optional: f.is_optional,
                         is_public: f.is_public,
+                        serde_rename: f.serde_rename.as_deref(),
+                        validator_attributes: &f.validator_attributes,
                     })
                     .collect(),
+                serde_rename_all: s.serde_rename_all.map(|r| r.to_rename_all_str()),
             })
             .collect();
 
@@ -257,6 +297,7 @@ impl GenerationCache {
             type_mappings: Option<std::collections::BTreeMap<&'a String, &'a String>>,
             default_parameter_case: &'a str,
             default_field_case: &'a str,
+            visualize_deps: bool,
         }
 
         let hash_data = ConfigHashData {
@@ -266,7 +307,28 @@ impl GenerationCache {
             type_mappings: config.type_mappings.as_ref().map(|m| m.iter().collect()),
             default_parameter_case: &config.default_parameter_case,
             default_field_case: &config.default_field_case,
+            visualize_deps: config.should_visualize_deps(),
         };
+
+        let json = serde_json::to_string(&hash_data)?;
+        Ok(Self::compute_hash(&json))
+    }
+
+    /// Generate a deterministic hash of events (they decide events.ts and index.ts)
+    fn hash_events(events: &[EventInfo]) -> Result<String, CacheError> {
+        #[derive(Serialize)]
+        struct EventHashData<'a> {
+            event_name: &'a str,
+            payload_type: &'a str,
+        }
+
+        let hash_data: Vec<EventHashData> = events
+            .iter()
+            .map(|e| EventHashData {
+                event_name: &e.event_name,
+                payload_type: &e.payload_type,
+            })
+            .collect();
 
         let json = serde_json::to_string(&hash_data)?;
         Ok(Self::compute_hash(&json))
